@@ -837,8 +837,10 @@ fn likely_chem_equation(mathml: Element) -> isize {
                         if likely < CHEMISTRY_THRESHOLD {
                             likely = likely_chem_equation(mtd);
                         }     
-                        if likely < CHEMISTRY_THRESHOLD {
-                            is_changed_after_unmarking_chemistry(mtd);
+                        if likely < CHEMISTRY_THRESHOLD && is_changed_after_unmarking_chemistry(mtd) {
+                            // the rows canonicalization added to the cell are gone: keep a mark on the table so that
+                            // scan_and_mark_chemistry() asks for the second parse instead of taking its quick exit
+                            child.set_attribute_value(MAYBE_CHEMISTRY, &NOT_CHEMISTRY.to_string());
                         }     
                     }
                 }
@@ -1018,8 +1020,9 @@ fn likely_chem_formula(mathml: Element) -> isize {
                     if likely < CHEMISTRY_THRESHOLD {
                         likely = likely_chem_equation(mtd);
                     }     
-                    if likely < CHEMISTRY_THRESHOLD {
-                        is_changed_after_unmarking_chemistry(mtd);
+                    if likely < CHEMISTRY_THRESHOLD && is_changed_after_unmarking_chemistry(mtd) {
+                        // see likely_chem_equation(): a second parse is needed
+                        mathml.set_attribute_value(MAYBE_CHEMISTRY, &NOT_CHEMISTRY.to_string());
                     }     
                 }
             }
